@@ -242,6 +242,59 @@ def esc2(ctx: Ctx) -> None:
         raise AnalysisError(f"ESC-2: {n} resume-capable calls found (8 confirmed by hand)")
 
 
+def snap8(ctx: Ctx) -> None:
+    """SNAP-8 the number of value-stack slots read through ctypes is bounded.  Where the top of the stack is computed from the
+    *raw* stacktop field (a word of memory that a racing thread may be rewriting, or that may belong to a moved frame), an
+    assertion that it does not exceed the end of the frame's stack area lies on every path from that computation to the
+    construction of the `py_object * n` array: an unbounded n reads PyObject* values from beyond the frame (a crash, not an
+    exception).  The branch that derives the top from the exception table's depth (running frames) is bounded by construction"""
+    mod = ctx.P.mod("_lowlevel_cpython_311")
+    fn = mod.fn("inspect_frame")
+    g = ctx.cfg(fn)
+    arrays = [a for a in walk_scope(fn) if isinstance(a, ast.Assign) and isinstance(a.value, ast.Call) and isinstance(a.value.func, ast.Attribute) and a.value.func.attr == "from_address"
+              and isinstance(a.value.func.value, ast.BinOp) and isinstance(a.value.func.value.op, ast.Mult) and "py_object" in norm(a.value.func.value.left)]
+    if len(arrays) != 1:
+        ctx.R.undecided("SNAP-8", f"{len(arrays)} `(ctypes.py_object * n).from_address(...)` constructions in inspect_frame (1 expected)")
+        return
+    arr = arrays[0]
+    nvar = norm(arr.value.func.value.right)
+    nas = [a for a in walk_scope(fn) if isinstance(a, ast.Assign) and len(a.targets) == 1 and norm(a.targets[0]) == nvar]
+    raws = {norm(a.targets[0]) for a in walk_scope(fn) if isinstance(a, ast.Assign) and len(a.targets) == 1 and isinstance(a.value, ast.Attribute) and a.value.attr == "stacktop"}
+    if len(nas) != 1 or not raws:
+        ctx.R.undecided("SNAP-8", f"the slot count `{nvar}` / the raw stacktop read were not found")
+        return
+    tops = {x.id for x in ast.walk(nas[0].value) if isinstance(x, ast.Name)}
+    derived = [a for a in walk_scope(fn) if isinstance(a, ast.Assign) and len(a.targets) == 1 and norm(a.targets[0]) in tops
+               and any(isinstance(x, ast.Name) and x.id in raws for x in ast.walk(a.value))]
+    if not derived:
+        ctx.R.undecided("SNAP-8", "no stack-top computation from the raw stacktop field found")
+        return
+    for d in derived:
+        tname = norm(d.targets[0])
+        bounds = []
+        for a in walk_scope(fn):
+            if isinstance(a, ast.Assert):
+                for c in ast.walk(a.test):
+                    if isinstance(c, ast.Compare):
+                        opers = [c.left] + list(c.comparators)
+                        for i, o_ in enumerate(opers[:-1]):
+                            if norm(o_) == tname and isinstance(c.ops[i], (ast.LtE, ast.Lt)):
+                                bounds.append(a)
+                        for i, o_ in enumerate(opers[1:]):
+                            if norm(o_) == tname and isinstance(c.ops[i], (ast.GtE, ast.Gt)):
+                                bounds.append(a)
+        dn, an = g.node_of(d), g.node_of(arr)
+        if not bounds:
+            ctx.R.fail("SNAP-8", mod, d, f"`{tname}` is computed from the raw stacktop field and no assertion bounds it from above before `{nvar}` slots are read through ctypes: a stale or racing "
+                       "stacktop makes the reader dereference PyObject* values beyond the frame's stack area (interpreter crash)", construct=f"unbounded {tname} from raw stacktop")
+        elif an.idx not in g.reachable_from(dn, avoid={g.node_of(b).idx for b in bounds} | {g.node_of(l_).idx for l_ in mod.ancestors(d) if isinstance(l_, (ast.For, ast.While))}):
+            # (within one attempt: a path that leaves through the retry loop's header computes the top afresh)
+            ctx.R.ok("SNAP-8", f"{tname} (from raw stacktop) is bounded from above on every path to the py_object array", norm(bounds[0].test)[:70])
+        else:
+            ctx.R.fail("SNAP-8", mod, d, f"the upper bound on `{tname}` is not asserted on every path from its computation to the py_object array", construct=f"{tname} bound not on all paths")
+
+
+
 def esc3(ctx: Ctx) -> None:
     """ESC-3 every coroutine / async generator the package instantiates for type discovery is closed on every path"""
     n = 0
@@ -914,4 +967,4 @@ def _glob_findings(fn: ast.AST, name_of, mod: Optional[Mod] = None):
 
 
 C06 = [esc1, esc2, esc3, null1, glob1, cty1]
-C07 = [snap, thr1, thr2, null1]
+C07 = [snap, snap8, thr1, thr2, null1]
